@@ -253,7 +253,7 @@ def split_trace(path, workdir, name, chunks):
     cur = []
     with open(path) as f:
         for line in f:
-            if '"op":"reset"' in line:
+            if '"op":"reset"' in line or '"op": "reset"' in line:
                 if cur:
                     groups.append(cur)
                 cur = [line]
